@@ -10,6 +10,7 @@ import (
 	"hash/fnv"
 	"net/http"
 	"net/http/httptest"
+	"os"
 	"reflect"
 	"sort"
 	"strings"
@@ -204,7 +205,12 @@ func canon(c *harness.Ctx) {
 				// illegal enum constant) right before this one must leave no trace in its output
 				if bad, ok := poisoned(call.Args); ok {
 					w.net.setCur(-1, nil)
+					// no order draws while it fails: how far it gets before the failure can depend on the
+					// (uncontrollable) iteration order of a pointer-keyed map, and the number of draws with it
+					saved := simrt.Order
+					simrt.Order = nil
 					func() {
+						defer func() { simrt.Order = saved }()
 						defer func() { recover() }()
 						in := append([]reflect.Value{reflect.ValueOf(bgCtx)}, bad...)
 						rets := call.client.MethodByName(call.Method + "WithContext").Call(in)
@@ -242,6 +248,13 @@ func canon(c *harness.Ctx) {
 				baseReq, baseResp = dt.req, dt.resp
 				digest.Write(baseReq)
 				digest.Write(baseResp)
+				if f := os.Getenv("S4_CANON_DUMP"); f != "" {
+					// debugging aid for the determinism protocol
+					if fh, err := os.OpenFile(f, os.O_APPEND|os.O_CREATE|os.O_WRONLY, 0644); err == nil {
+						fmt.Fprintf(fh, "%s\nREQ %q\nRESP %q\n", call.Desc, baseReq, baseResp)
+						fh.Close()
+					}
+				}
 				if msg := checkAscending(baseReq, baseResp); msg != "" {
 					c.Fail("C09", "not-ascending", "not-ascending:"+strings.SplitN(msg, ":", 2)[0], "%s [%s]: %s\n request: %s\n response: %s", call.Desc, world, msg, clip(baseReq, 600), clip(baseResp, 600))
 					return
